@@ -7,10 +7,10 @@ add("C19", "model_checking",
     "DESIGN.md 6 (C19), 5.3")
 
 add("C20", "model_checking",
-    "explicit TLA+ specification of the loader (ModLoad.tla) model-checked with TLC against the ordering contract (ModLoadContract.tla), bound to src/module.c by running every case on the real daemon with stub modules and validating each event log with TLC (ModLoadTrace.tla)",
-    "Every dependency graph with every listing on <=3 modules (self-dependencies, every module_depends call order, optionally one missing module) and on <=4 modules (all 4 096 graphs, calls in name order) is model-checked exhaustively (B => A; 7.4e6 states thorough / 1.7e5 quick). Every <=3-module case, all acyclic 4-module cases and seeded random graphs on 4-6 modules are run on the real daemon, each log judged by TLC and compared with the model's prediction.",
-    "Exhaustive for the stated bounds on the model. On the real code, the <=3-module cases, the drawn cases and the acyclic 4-module cases always run; the cyclic 4-module cases run within a time budget (count in the evidence). Modules are stubs. module_antidepends and module_is_backend are outside the property. Six modules at most.",
-    "DESIGN.md 6 (C20), 5.3")
+    "explicit TLA+ specification of the loader (ModLoad.tla) model-checked with TLC against the ordering contract (ModLoadContract.tla), bound to src/module.c by running every case on the real daemon with stub modules (four variants: optional module_post_init / module_destructor present or absent) and validating each event log with TLC (ModLoadTrace.tla)",
+    "TLC model-checks the transcribed loader against the contract for: every dependency graph, listing and missing-module choice on <=3 modules with paired hook profiles for all good cases (quick: 11 887 cases, 2.8e5 states); thorough adds every profile on <=3 modules, every call order, all 4 096 4-module graphs and drawn graphs up to 6 modules (9.0e6 states). The hook profile (which modules lack the optional post-init / destructor) is part of every case. Every case is run on the real daemon (14 372 start-ups quick, 2.3e5 thorough); TLC validates each event log and exit status against the same contract and against the model's prediction (DRIFT). Model mutants (D12, NoPostNoMark, NoDtorNoUnlink) and 8 corrupted real logs are re-checked on every run.",
+    "Exhaustive for the stated bounds on the model. Order requirements are stated over the transitive dependency closure restricted to modules that have the hook. On a bad case a post-init of a module off the cycle that ran before the loop was detected is not blamed. Cyclic 4-module cases run within a time budget (count in the evidence). module_antidepends and module_is_backend are outside the contract.",
+    "DESIGN.md 6 (C20), 5.3, 13")
 
 add("C12", "model_checking",
     "TLA+ contract (Canon, independent text reader Denote) + transcribed irc_ntop/irc_pton checked exhaustively by TLC over all 5^8 group-class patterns; real code run over the same index-addressed domains and every line validated by TLC",
